@@ -78,11 +78,29 @@ pub fn gen(tier: Tier, rng: &mut Rng) -> Vec<Sx> {
             _ => Sx::l(vec![Sx::n(2), Sx::n(dur), Sx::n(1000), evs]),
         });
     }
+    // StreamAlphaNode under the injected clock: the clock advances, events arrive with timestamps around it
+    // (in order, late within the window, too old, in the future), other streams / types mixed in
+    let ns = if tier == Tier::Thorough { 120000 } else { 6000 };
+    for _ in 0..ns {
+        let kind = rng.below(2);
+        let dur = *rng.pick(&[1u64, 2, 3, 5, 10, 50]);
+        let cap = *rng.pick(&[1u64, 2, 3, 1000, 1000, 1000]);
+        let mut now = rng.range(0, 30); let mut ops = vec![Sx::l(vec![Sx::n(0), Sx::n(now)])]; let mut id = 0u64;
+        for _ in 0..rng.range(2, 12) {
+            if rng.chance(1, 3) { now += *rng.pick(&[0u64, 1, 1, 2, 3, 7, 20]); ops.push(Sx::l(vec![Sx::n(0), Sx::n(now)])); }
+            id += 1;
+            let back = *rng.pick(&[0u64, 0, 1, 1, 2, 3, 4, 6, 11, 60]);
+            let ts = if rng.chance(1, 12) { now + rng.range(1, 3) } else { now.saturating_sub(back) };
+            ops.push(Sx::l(vec![Sx::n(1), Sx::n(id), Sx::n(ts), Sx::b(rng.chance(9, 10)), Sx::b(rng.chance(9, 10))]));
+        }
+        v.push(Sx::l(vec![Sx::n(3), Sx::n(kind), Sx::n(dur), Sx::n(cap), Sx::l(ops)]));
+    }
     v
 }
 
 pub fn run(case: &Sx) -> (Sx, String) {
     let tag = case.at(0).as_u();
+    if tag == 3 { return run_alpha(case); }
     let dur = case.at(1).as_u(); let cap = case.at(2).as_us();
     match tag {
         0 => {
@@ -119,4 +137,32 @@ pub fn run(case: &Sx) -> (Sx, String) {
              if n > 1 { "windowed".into() } else { "trivial".into() })
         }
     }
+}
+
+/// StreamAlphaNode: case = (3 kind duration cap (op ...)), op = (0 t) set the injected clock | (1 id ts src_ok type_ok) an event
+fn run_alpha(case: &Sx) -> (Sx, String) {
+    use rust_rule_engine::rete::stream_alpha_node::{StreamAlphaNode, WindowSpec};
+    let kind = case.at(1).as_u(); let dur = case.at(2).as_u(); let cap = case.at(3).as_us();
+    let spec = WindowSpec { duration: Duration::from_millis(dur), window_type: if kind == 0 { WindowType::Sliding } else { WindowType::Tumbling } };
+    let mut node = StreamAlphaNode::new("s", Some("T".to_string()), Some(spec)).with_max_events(cap);
+    let mut obs = vec![]; let (mut acc, mut late) = (0, false); let mut maxts = 0u64;
+    #[cfg(rre_verif)]
+    rust_rule_engine::verif_hooks::set_clock_ms(Some(0));
+    for o in case.at(4).as_l() {
+        if o.at(0).as_u() == 0 {
+            #[cfg(rre_verif)]
+            rust_rule_engine::verif_hooks::set_clock_ms(Some(o.at(1).as_u()));
+            obs.push(Sx::l(vec![]));
+        } else {
+            let ts = o.at(2).as_u();
+            let mut e = StreamEvent::with_timestamp(if o.at(4).as_b() { "T" } else { "U" }, HashMap::new(), if o.at(3).as_b() { "s" } else { "other" }, ts);
+            e.id = o.at(1).as_u().to_string();
+            let m = node.process_event(&e);
+            if m { acc += 1; if ts < maxts { late = true; } maxts = maxts.max(ts); }
+            obs.push(Sx::l(vec![Sx::b(m), Sx::ns(node.get_events().iter().map(id_of))]));
+        }
+    }
+    #[cfg(rre_verif)]
+    rust_rule_engine::verif_hooks::set_clock_ms(None);
+    (Sx::l(obs), if acc == 0 { "trivial: alpha node accepted nothing".into() } else { format!("alpha {}{}", if kind == 0 { "sliding" } else { "tumbling" }, if late { " late" } else { "" }) })
 }
